@@ -40,6 +40,11 @@ Reference rendering details (found while making the oracle sound):
   ``:name`` placeholders of the twin and are resolved by name; RETURNING therefore only
   carries plain binds.
 
+Open on the unchanged tree: ``imv-cte-bind-accumulated-as-values-bind`` - executemany INSERT .. RETURNING whose VALUES
+contains a scalar subquery over a SELECT CTE with a bind: the CTE's bind is accumulated as a per-row VALUES bind
+(fails under every paramstyle; proposal in selftest/C04/proposed/).  The sqlite engines of this check take over BEGIN
+(pysqlite's implicit transaction does not start in front of "WITH ... INSERT").
+
 Genuine defects this check found (fixed in /repo by 7b1a1df, 2a07cdd, fd1a2af; the mechanisms stay as regression detectors):
 * ``literal-execute-escaped-name-keyerror`` - literal_execute bind whose name needs
   escaping -> KeyError in ``_process_parameters_for_postcompile``;
@@ -120,6 +125,18 @@ class Rig:
         for style, url in SQLITE_STYLES:
             shim = ShimDBAPI(style)
             eng = shim.engine(url, paramstyle=style, insertmanyvalues_page_size=4)
+
+            # pysqlite's legacy transaction control opens its implicit transaction only in front of statements
+            # that *start* with INSERT/UPDATE/DELETE/REPLACE: "WITH ... INSERT" would run in autocommit and
+            # survive the harness' rollback.  Documented workaround: take over BEGIN.
+            @sa.event.listens_for(eng, "connect")
+            def _no_implicit_begin(dbapi_con, rec):
+                dbapi_con.isolation_level = None
+
+            @sa.event.listens_for(eng, "begin")
+            def _explicit_begin(conn):
+                conn.exec_driver_sql("BEGIN")
+
             raw = eng.raw_connection()
             g.load_raw(raw.dbapi_connection._raw)
             raw.close()
@@ -312,7 +329,7 @@ def judge_log(rig, ctx, case, log, dialect, twin, label, known, witness):
             ctx.violation(mech("imv-rows-not-sent", style, case), f"{label}: rows {rows_left} never sent", witness)
         return ok
     except tok.MissingParam as e:
-        if style == "named" and "prefix_names" in case.features and case.multi is not None:
+        if style == "named" and "prefix_names" in case.features and case.multi is not None and "cte_in_values" not in case.features:
             # insertmanyvalues, dict paramstyle whose placeholder has no terminator (":name"):
             # str.replace(":p_a", ":p_a__0") also rewrites the head of ":p_a2"
             ctx.count("imv_named_prefix_hits")
@@ -460,8 +477,8 @@ def run_fake(rig, ctx, case_builder, name, eng, fake, struct_seed, vseed, witnes
         if known_keyerror(ctx, case, e, name, witness) or known_tuple_assert(ctx, case, e, name, witness, d.positional):
             return
         raise
-    except AssertionError as e:
-        ctx.violation(mech("execution-failed-under-style:AssertionError", d.paramstyle, case), f"{name}: {type(e).__name__} {str(e)[:200]}", witness)
+    except (AssertionError, TypeError, KeyError, IndexError) as e:
+        ctx.violation(mech("execution-failed-under-style:" + type(e).__name__, d.paramstyle, case), f"{name}: {type(e).__name__} {str(e)[:200]}", witness)
         return
     log = [(e.kind, e.sql, e.params) for e in fake.since(mark, ("execute", "executemany"))]
     label = name
